@@ -21,37 +21,37 @@ precondition (it agrees with the spec's facts on the listed paths — anything m
 consistent and well-typed, and the objects the spec calls garbage are unreachable), EVERY prefix of
 the program (= every crash point) leaves a `Recoverable` state. -/
 theorem crashSafe_of_check (spec : Spec) (p : List Call) (h : checkProgram spec p = true)
-    (G : Nat → List Nat) (s : FS) (hpre : Pre spec G s) (k : Nat) :
-    Recoverable spec G s (run (p.take k) s) :=
-  inv_recoverable hpre (go_sound hpre p spec.known s hpre.agrees (inv_init hpre) h k)
+    (G GP : Nat → List Nat) (s : FS) (hpre : Pre spec G GP s) (k : Nat) :
+    Recoverable spec G GP s (run (p.take k) s) :=
+  inv_recoverable (go_sound hpre p spec.known s hpre.agrees (inv_init hpre) h k)
 
 /-- The recorded start state of a scenario (closed world: what is not listed is absent) satisfies the
 precondition whenever the executable `preK` says so — used to show that the hypotheses of
 `crashSafe_of_check` are satisfiable on every recorded scenario. -/
 theorem pre_of_check (spec : Spec) (h : preK spec = true) :
-    Pre spec (graphOf spec) (toFS spec.known) := pre_of_preK h
+    Pre spec (graphOf spec) (parentsOf spec) (toFS spec.known) := pre_of_preK h
 
 /-- A violated ref clause refutes `Recoverable` (used by the generated counterexamples). -/
-theorem not_recoverable_of_ref {spec : Spec} {G : Nat → List Nat} {s0 s : FS} {r : Nat}
-    (h : ¬ RefOldOrNew spec s0 s r) : ¬ Recoverable spec G s0 s := fun hr => h (hr.refs r)
+theorem not_recoverable_of_ref {spec : Spec} {G GP : Nat → List Nat} {s0 s : FS} {r : Nat}
+    (h : ¬ RefOldOrNew spec s0 s r) : ¬ Recoverable spec G GP s0 s := fun hr => h (hr.refs r)
 
 /-! ## 2. The recorded programs of the real operations -/
 
 /-- Every recorded scenario whose real crash states satisfied the oracle is accepted by the checker,
 hence crash safe from every start state satisfying its precondition, at every crash point. -/
 theorem recorded_programs_crash_safe :
-    ∀ e ∈ Gen.TracesChecked.safe, ∀ (G : Nat → List Nat) (s : FS), Pre e.1 G s →
-      ∀ k, Recoverable e.1 G s (run (e.2.take k) s) := by
-  intro e he G s hpre k
+    ∀ e ∈ Gen.TracesChecked.safe, ∀ (G GP : Nat → List Nat) (s : FS), Pre e.1 G GP s →
+      ∀ k, Recoverable e.1 G GP s (run (e.2.take k) s) := by
+  intro e he G GP s hpre k
   have := Gen.TracesChecked.safe_checked
   rw [List.all_eq_true] at this
-  exact crashSafe_of_check e.1 e.2 (this e he) G s hpre k
+  exact crashSafe_of_check e.1 e.2 (this e he) G GP s hpre k
 
 /-- Non-vacuity on the recorded scenarios: the recorded start states themselves satisfy the
 precondition, so the statement above says something about each of them. -/
 theorem recorded_start_states_satisfy_pre :
     ∀ e ∈ Gen.TracesChecked.safe ++ Gen.TracesChecked.flagged,
-      Pre e.1 (graphOf e.1) (toFS e.1.known) := by
+      Pre e.1 (graphOf e.1) (parentsOf e.1) (toFS e.1.known) := by
   intro e he
   have := Gen.TracesChecked.all_pre
   rw [List.all_eq_true] at this
@@ -63,31 +63,31 @@ section patterns
 
 /-- write `<sha>.lock`, then rename onto the object path (`DiskObjectStore.add_object`). -/
 def specLoose : Spec :=
-  { edges := [(1, [])], known := [(.tmp 1, none), (.loose 1, none)],
+  { edges := [(1, [], [])], known := [(.tmp 1, none), (.loose 1, none), (.shallow, none)],
     newRefs := [], newPlain := [], garbage := [] }
 
 def progLoose : List Call :=
   [.write (.tmp 1) .junk, .write (.tmp 1) (.obj 1), .rename (.tmp 1) (.loose 1)]
 
-theorem write_temp_then_rename_safe (G : Nat → List Nat) (s : FS) (hpre : Pre specLoose G s) (k : Nat) :
-    Recoverable specLoose G s (run (progLoose.take k) s) :=
-  crashSafe_of_check _ _ (by decide) G s hpre k
+theorem write_temp_then_rename_safe (G GP : Nat → List Nat) (s : FS) (hpre : Pre specLoose G GP s) (k : Nat) :
+    Recoverable specLoose G GP s (run (progLoose.take k) s) :=
+  crashSafe_of_check _ _ (by decide) G GP s hpre k
 
-example : Pre specLoose (graphOf specLoose) (toFS specLoose.known) := pre_of_check _ (by decide)
+example : Pre specLoose (graphOf specLoose) (parentsOf specLoose) (toFS specLoose.known) := pre_of_check _ (by decide)
 
 /-- Negative twin: writing the object in place leaves a half-written file at the object's path. -/
 theorem write_in_place_counterexample :
-    ∃ G s, Pre specLoose G s ∧
-      ¬ Recoverable specLoose G s (run ([Call.write (.loose 1) .junk, .write (.loose 1) (.obj 1)].take 1) s) := by
-  refine ⟨graphOf specLoose, toFS specLoose.known, pre_of_check _ (by decide), fun h => ?_⟩
+    ∃ G GP s, Pre specLoose G GP s ∧
+      ¬ Recoverable specLoose G GP s (run ([Call.write (.loose 1) .junk, .write (.loose 1) (.obj 1)].take 1) s) := by
+  refine ⟨graphOf specLoose, parentsOf specLoose, toFS specLoose.known, pre_of_check _ (by decide), fun h => ?_⟩
   have := h.typed (.loose 1) .junk (by decide)
   exact absurd this (by decide)
 
 /-- objects first (temp-then-rename each), the ref last (`WorkTree.commit`, receive-pack). -/
 def specCommit : Spec :=
-  { edges := [(1, [2]), (2, [])],
+  { edges := [(1, [2], []), (2, [], [])],
     known := [(.tmp 1, none), (.tmp 2, none), (.tmp 3, none), (.loose 1, none), (.loose 2, none),
-              (.ref 1, none), (.packedRefs, none)],
+              (.ref 1, none), (.packedRefs, none), (.shallow, none)],
     newRefs := [(1, some (.sha 1))], newPlain := [], garbage := [] }
 
 def progCommit : List Call :=
@@ -95,11 +95,11 @@ def progCommit : List Call :=
    .write (.tmp 2) (.obj 1), .rename (.tmp 2) (.loose 1),
    .write (.tmp 3) (.refSha 1), .rename (.tmp 3) (.ref 1)]
 
-theorem objects_before_ref_safe (G : Nat → List Nat) (s : FS) (hpre : Pre specCommit G s) (k : Nat) :
-    Recoverable specCommit G s (run (progCommit.take k) s) :=
-  crashSafe_of_check _ _ (by decide) G s hpre k
+theorem objects_before_ref_safe (G GP : Nat → List Nat) (s : FS) (hpre : Pre specCommit G GP s) (k : Nat) :
+    Recoverable specCommit G GP s (run (progCommit.take k) s) :=
+  crashSafe_of_check _ _ (by decide) G GP s hpre k
 
-example : Pre specCommit (graphOf specCommit) (toFS specCommit.known) := pre_of_check _ (by decide)
+example : Pre specCommit (graphOf specCommit) (parentsOf specCommit) (toFS specCommit.known) := pre_of_check _ (by decide)
 
 /-- Negative twin: the checker rejects the ref-first order … -/
 def progRefFirst : List Call :=
@@ -111,8 +111,8 @@ theorem ref_before_objects_rejected : checkProgram specCommit progRefFirst = fal
 
 /-- … and rightly so: after the rename the ref names an object that is not there. -/
 theorem ref_before_objects_counterexample :
-    ∃ G s, Pre specCommit G s ∧ ¬ Recoverable specCommit G s (run (progRefFirst.take 2) s) := by
-  refine ⟨graphOf specCommit, toFS specCommit.known, pre_of_check _ (by decide), fun h => ?_⟩
+    ∃ G GP s, Pre specCommit G GP s ∧ ¬ Recoverable specCommit G GP s (run (progRefFirst.take 2) s) := by
+  refine ⟨graphOf specCommit, parentsOf specCommit, toFS specCommit.known, pre_of_check _ (by decide), fun h => ?_⟩
   have hv := h.consistent 1 ⟨1, 1, by decide, ReachFrom.refl 1⟩
   rcases hv with hv | ⟨p, k, objs, hp, _, _⟩
   · exact absurd hv (by decide)
@@ -120,19 +120,19 @@ theorem ref_before_objects_counterexample :
 
 /-- pack renamed in first (invisible without its index), the index last (`_complete_pack`). -/
 def specPack : Spec :=
-  { edges := [(1, []), (2, [])],
-    known := [(.tmp 1, none), (.tmp 2, none), (.pack 1, none), (.idx 1, none)],
+  { edges := [(1, [], []), (2, [], [])],
+    known := [(.tmp 1, none), (.tmp 2, none), (.pack 1, none), (.idx 1, none), (.shallow, none)],
     newRefs := [], newPlain := [], garbage := [] }
 
 def progPack : List Call :=
   [.write (.tmp 1) .junk, .write (.tmp 1) (.packData 1), .rename (.tmp 1) (.pack 1),
    .write (.tmp 2) .junk, .write (.tmp 2) (.idxData 1 [1, 2]), .rename (.tmp 2) (.idx 1)]
 
-theorem pack_then_idx_safe (G : Nat → List Nat) (s : FS) (hpre : Pre specPack G s) (k : Nat) :
-    Recoverable specPack G s (run (progPack.take k) s) :=
-  crashSafe_of_check _ _ (by decide) G s hpre k
+theorem pack_then_idx_safe (G GP : Nat → List Nat) (s : FS) (hpre : Pre specPack G GP s) (k : Nat) :
+    Recoverable specPack G GP s (run (progPack.take k) s) :=
+  crashSafe_of_check _ _ (by decide) G GP s hpre k
 
-example : Pre specPack (graphOf specPack) (toFS specPack.known) := pre_of_check _ (by decide)
+example : Pre specPack (graphOf specPack) (parentsOf specPack) (toFS specPack.known) := pre_of_check _ (by decide)
 
 /-- A pack is read only when BOTH files are present (`_update_pack_cache`), so on a start state with no
 file of that name the index-first order passes too … -/
@@ -146,11 +146,11 @@ theorem idx_then_pack_without_orphan_accepted :
 def specPackOrphan : Spec :=
   { specPack with known := (.pack 1, some (.packData 9)) :: specPack.known }
 
-theorem pack_then_idx_over_orphan_safe (G : Nat → List Nat) (s : FS) (hpre : Pre specPackOrphan G s)
-    (k : Nat) : Recoverable specPackOrphan G s (run (progPack.take k) s) :=
-  crashSafe_of_check _ _ (by decide) G s hpre k
+theorem pack_then_idx_over_orphan_safe (G GP : Nat → List Nat) (s : FS) (hpre : Pre specPackOrphan G GP s)
+    (k : Nat) : Recoverable specPackOrphan G GP s (run (progPack.take k) s) :=
+  crashSafe_of_check _ _ (by decide) G GP s hpre k
 
-example : Pre specPackOrphan (graphOf specPackOrphan) (toFS specPackOrphan.known) :=
+example : Pre specPackOrphan (graphOf specPackOrphan) (parentsOf specPackOrphan) (toFS specPackOrphan.known) :=
   pre_of_check _ (by decide)
 
 /-- index-first pairs the new index with the orphan's bytes: `Pack.data` raises `ChecksumMismatch`
@@ -163,9 +163,9 @@ theorem idx_before_pack_over_orphan_rejected : checkProgram specPackOrphan progI
   decide
 
 theorem idx_before_pack_over_orphan_counterexample :
-    ∃ G s, Pre specPackOrphan G s ∧
-      ¬ Recoverable specPackOrphan G s (run (progIdxFirst.take 2) s) := by
-  refine ⟨graphOf specPackOrphan, toFS specPackOrphan.known, pre_of_check _ (by decide), fun h => ?_⟩
+    ∃ G GP s, Pre specPackOrphan G GP s ∧
+      ¬ Recoverable specPackOrphan G GP s (run (progIdxFirst.take 2) s) := by
+  refine ⟨graphOf specPackOrphan, parentsOf specPackOrphan, toFS specPackOrphan.known, pre_of_check _ (by decide), fun h => ?_⟩
   have := h.paired 1 9 1 [1, 2] (by decide) (by decide)
   exact absurd this (by decide)
 
@@ -177,10 +177,10 @@ theorem pack_in_place_rejected :
 /-- new pack (pack + index) in place before the loose objects and the old pack are removed
 (`pack_loose_objects`, `repack`). -/
 def specRepack : Spec :=
-  { edges := [(1, [2]), (2, []), (3, [])],
+  { edges := [(1, [2], []), (2, [], []), (3, [], [])],
     known := [(.loose 1, some (.obj 1)), (.pack 1, some (.packData 1)), (.idx 1, some (.idxData 1 [2, 3])),
               (.ref 1, some (.refSha 1)), (.packedRefs, none),
-              (.tmp 1, none), (.tmp 2, none), (.pack 2, none), (.idx 2, none)],
+              (.tmp 1, none), (.tmp 2, none), (.pack 2, none), (.idx 2, none), (.shallow, none)],
     newRefs := [], newPlain := [], garbage := [3] }
 
 def progRepack : List Call :=
@@ -188,11 +188,11 @@ def progRepack : List Call :=
    .write (.tmp 2) (.idxData 2 [1, 2]), .rename (.tmp 2) (.idx 2),
    .unlink (.loose 1), .unlink (.pack 1), .unlink (.idx 1)]
 
-theorem new_pack_before_old_removed_safe (G : Nat → List Nat) (s : FS) (hpre : Pre specRepack G s)
-    (k : Nat) : Recoverable specRepack G s (run (progRepack.take k) s) :=
-  crashSafe_of_check _ _ (by decide) G s hpre k
+theorem new_pack_before_old_removed_safe (G GP : Nat → List Nat) (s : FS) (hpre : Pre specRepack G GP s)
+    (k : Nat) : Recoverable specRepack G GP s (run (progRepack.take k) s) :=
+  crashSafe_of_check _ _ (by decide) G GP s hpre k
 
-example : Pre specRepack (graphOf specRepack) (toFS specRepack.known) := pre_of_check _ (by decide)
+example : Pre specRepack (graphOf specRepack) (parentsOf specRepack) (toFS specRepack.known) := pre_of_check _ (by decide)
 
 /-- Negative twin: loose object removed before the new pack's index is in place. -/
 def progRepackEarly : List Call :=
@@ -204,8 +204,8 @@ def progRepackEarly : List Call :=
 theorem loose_removed_before_idx_rejected : checkProgram specRepack progRepackEarly = false := by decide
 
 theorem loose_removed_before_idx_counterexample :
-    ∃ G s, Pre specRepack G s ∧ ¬ Recoverable specRepack G s (run (progRepackEarly.take 3) s) := by
-  refine ⟨graphOf specRepack, toFS specRepack.known, pre_of_check _ (by decide), fun h => ?_⟩
+    ∃ G GP s, Pre specRepack G GP s ∧ ¬ Recoverable specRepack G GP s (run (progRepackEarly.take 3) s) := by
+  refine ⟨graphOf specRepack, parentsOf specRepack, toFS specRepack.known, pre_of_check _ (by decide), fun h => ?_⟩
   have hv := h.kept 1 ⟨1, 1, by decide, ReachFrom.refl 1⟩
   rcases hv with hv | ⟨p, k, objs, hp, hi, ho⟩
   · exact absurd hv (by decide)
@@ -227,18 +227,19 @@ section f8
 /-- `DiskRefsContainer.add_packed_refs` as coded: lock `packed-refs`, write the new `packed-refs` and
 rename it in, and only THEN remove the loose ref. -/
 def specPackRefs : Spec :=
-  { edges := [(1, [])],
-    known := [(.ref 1, some (.refSha 1)), (.loose 1, some (.obj 1)), (.packedRefs, none), (.tmp 1, none)],
+  { edges := [(1, [], [])],
+    known := [(.ref 1, some (.refSha 1)), (.loose 1, some (.obj 1)), (.packedRefs, none), (.tmp 1, none),
+              (.shallow, none)],
     newRefs := [], newPlain := [], garbage := [] }
 
 def progPackRefsAsCoded : List Call :=
   [.write (.tmp 1) .junk, .write (.tmp 1) (.packed [(1, 1)]), .rename (.tmp 1) .packedRefs, .unlink (.ref 1)]
 
-theorem add_packed_refs_safe (G : Nat → List Nat) (s : FS) (hpre : Pre specPackRefs G s)
-    (k : Nat) : Recoverable specPackRefs G s (run (progPackRefsAsCoded.take k) s) :=
-  crashSafe_of_check _ _ (by decide) G s hpre k
+theorem add_packed_refs_safe (G GP : Nat → List Nat) (s : FS) (hpre : Pre specPackRefs G GP s)
+    (k : Nat) : Recoverable specPackRefs G GP s (run (progPackRefsAsCoded.take k) s) :=
+  crashSafe_of_check _ _ (by decide) G GP s hpre k
 
-example : Pre specPackRefs (graphOf specPackRefs) (toFS specPackRefs.known) := pre_of_check _ (by decide)
+example : Pre specPackRefs (graphOf specPackRefs) (parentsOf specPackRefs) (toFS specPackRefs.known) := pre_of_check _ (by decide)
 
 /-- Regression witness — the order before bb5afda: the loose ref was REMOVED while the lock was held,
 before the new `packed-refs` was written and renamed in. -/
@@ -251,28 +252,29 @@ theorem add_packed_refs_old_order_rejected : checkProgram specPackRefs progPackR
 /-- In the old order a crash after the loose ref has been removed and before the new `packed-refs` is
 renamed in loses the ref (it is neither loose nor packed). -/
 theorem add_packed_refs_old_order_counterexample :
-    ∃ G s, Pre specPackRefs G s ∧
-      ¬ Recoverable specPackRefs G s (run (progPackRefsOldOrder.take 2) s) :=
-  ⟨graphOf specPackRefs, toFS specPackRefs.known, pre_of_check _ (by decide),
+    ∃ G GP s, Pre specPackRefs G GP s ∧
+      ¬ Recoverable specPackRefs G GP s (run (progPackRefsOldOrder.take 2) s) :=
+  ⟨graphOf specPackRefs, parentsOf specPackRefs, toFS specPackRefs.known, pre_of_check _ (by decide),
     not_recoverable_of_ref (r := 1) (by decide)⟩
 
 /-- `remove_if_equals` on a ref that is both loose (value 2, newer) and packed (value 1, older), as
 coded: lock the ref, rewrite `packed-refs` without the ref, and only THEN remove the loose file. -/
 def specRemove : Spec :=
-  { edges := [(1, []), (2, [1])],
+  { edges := [(1, [], []), (2, [], [1])],
     known := [(.ref 1, some (.refSha 2)), (.packedRefs, some (.packed [(1, 1)])),
-              (.loose 1, some (.obj 1)), (.loose 2, some (.obj 2)), (.tmp 1, none), (.tmp 2, none)],
+              (.loose 1, some (.obj 1)), (.loose 2, some (.obj 2)), (.tmp 1, none), (.tmp 2, none),
+              (.shallow, none)],
     newRefs := [(1, none)], newPlain := [], garbage := [] }
 
 def progRemoveAsCoded : List Call :=
   [.write (.tmp 1) .junk, .write (.tmp 2) .junk, .write (.tmp 2) (.packed []),
    .rename (.tmp 2) .packedRefs, .unlink (.ref 1), .unlink (.tmp 1)]
 
-theorem remove_if_equals_safe (G : Nat → List Nat) (s : FS) (hpre : Pre specRemove G s)
-    (k : Nat) : Recoverable specRemove G s (run (progRemoveAsCoded.take k) s) :=
-  crashSafe_of_check _ _ (by decide) G s hpre k
+theorem remove_if_equals_safe (G GP : Nat → List Nat) (s : FS) (hpre : Pre specRemove G GP s)
+    (k : Nat) : Recoverable specRemove G GP s (run (progRemoveAsCoded.take k) s) :=
+  crashSafe_of_check _ _ (by decide) G GP s hpre k
 
-example : Pre specRemove (graphOf specRemove) (toFS specRemove.known) := pre_of_check _ (by decide)
+example : Pre specRemove (graphOf specRemove) (parentsOf specRemove) (toFS specRemove.known) := pre_of_check _ (by decide)
 
 /-- Regression witness — the order before bb5afda: the LOOSE file was removed first, `packed-refs`
 rewritten second. -/
@@ -286,8 +288,8 @@ theorem remove_if_equals_old_order_rejected : checkProgram specRemove progRemove
 /-- In the old order a crash between the two removals resurrects the older packed value: neither the
 old value (2) nor the new one (deleted). -/
 theorem remove_if_equals_old_order_counterexample :
-    ∃ G s, Pre specRemove G s ∧ ¬ Recoverable specRemove G s (run (progRemoveOldOrder.take 2) s) :=
-  ⟨graphOf specRemove, toFS specRemove.known, pre_of_check _ (by decide),
+    ∃ G GP s, Pre specRemove G GP s ∧ ¬ Recoverable specRemove G GP s (run (progRemoveOldOrder.take 2) s) :=
+  ⟨graphOf specRemove, parentsOf specRemove, toFS specRemove.known, pre_of_check _ (by decide),
     not_recoverable_of_ref (r := 1) (by decide)⟩
 
 /-- When loose and packed hold the SAME value even the old order was harmless (the window shows the
@@ -297,5 +299,76 @@ theorem remove_if_equals_old_order_same_value_accepted :
       progRemoveOldOrder = true := by decide
 
 end f8
+
+/-! ## 5. The `shallow` file is repository state: new objects visible BEFORE the shallow set shrinks -/
+
+section shallow
+
+/-- A shallow clone of depth 1: commit 1 (tree 3, parent 2) is a graft point, its parent 2 (tree 4) is not
+there.  Deepening / unshallowing (`GitClient.fetch` with `depth`, server answers `unshallow 1`) must install
+the pack holding 2 and 4 first and only then rewrite `shallow`. -/
+def specUnshallow : Spec :=
+  { edges := [(1, [3], [2]), (2, [4], []), (3, [], []), (4, [], [])],
+    known := [(.ref 1, some (.refSha 1)), (.loose 1, some (.obj 1)), (.loose 3, some (.obj 3)),
+              (.shallow, some (.shallowSet [1])), (.packedRefs, none),
+              (.tmp 1, none), (.tmp 2, none), (.tmp 3, none), (.pack 1, none), (.idx 1, none)],
+    newRefs := [], newPlain := [], garbage := [] }
+
+def progUnshallow : List Call :=
+  [.write (.tmp 1) (.packData 1), .rename (.tmp 1) (.pack 1),
+   .write (.tmp 2) (.idxData 1 [2, 4]), .rename (.tmp 2) (.idx 1),
+   .unlink .shallow]
+
+theorem objects_before_unshallow_safe (G GP : Nat → List Nat) (s : FS) (hpre : Pre specUnshallow G GP s)
+    (k : Nat) : Recoverable specUnshallow G GP s (run (progUnshallow.take k) s) :=
+  crashSafe_of_check _ _ (by decide) G GP s hpre k
+
+example : Pre specUnshallow (graphOf specUnshallow) (parentsOf specUnshallow) (toFS specUnshallow.known) :=
+  pre_of_check _ (by decide)
+
+/-- Deepening by one: the graft point moves from 1 to 2 (whose own parent stays cut off): same discipline,
+the new `shallow` is written to `shallow.lock` and renamed in after the pack. -/
+theorem objects_before_deepen_safe (G GP : Nat → List Nat) (s : FS) (hpre : Pre specUnshallow G GP s)
+    (k : Nat) : Recoverable specUnshallow G GP s
+      (run (List.take k [.write (.tmp 1) (.packData 1), .rename (.tmp 1) (.pack 1),
+                         .write (.tmp 2) (.idxData 1 [2, 4]), .rename (.tmp 2) (.idx 1),
+                         .write (.tmp 3) (.shallowSet [2]), .rename (.tmp 3) .shallow]) s) :=
+  crashSafe_of_check _ _ (by decide) G GP s hpre k
+
+/-- An initial shallow fetch ADDS graft points: safe in either order as long as the refs come last
+(objects, `shallow`, ref). -/
+theorem shallow_grows_then_ref_safe :
+    checkProgram
+      { edges := [(1, [3], [2]), (3, [], [])],
+        known := [(.ref 1, none), (.shallow, none), (.packedRefs, none), (.loose 1, none), (.loose 3, none),
+                  (.tmp 1, none), (.tmp 2, none), (.tmp 3, none), (.tmp 4, none)],
+        newRefs := [(1, some (.sha 1))], newPlain := [], garbage := [] }
+      [.write (.tmp 1) (.obj 3), .rename (.tmp 1) (.loose 3), .write (.tmp 2) (.obj 1), .rename (.tmp 2) (.loose 1),
+       .write (.tmp 3) (.shallowSet [1]), .rename (.tmp 3) .shallow,
+       .write (.tmp 4) (.refSha 1), .rename (.tmp 4) (.ref 1)] = true := by decide
+
+/-- Negative twin: `update_shallow` moved BEFORE the pack is committed. -/
+def progUnshallowEarly : List Call :=
+  [.unlink .shallow,
+   .write (.tmp 1) (.packData 1), .rename (.tmp 1) (.pack 1),
+   .write (.tmp 2) (.idxData 1 [2, 4]), .rename (.tmp 2) (.idx 1)]
+
+theorem unshallow_before_objects_rejected : checkProgram specUnshallow progUnshallowEarly = false := by
+  decide
+
+/-- A crash after the shallow file is gone and before the pack is installed: the ref's tip is no longer
+a graft point, its parent is missing (dulwich: KeyError walking the history; git fsck: broken link). -/
+theorem unshallow_before_objects_counterexample :
+    ∃ G GP s, Pre specUnshallow G GP s ∧
+      ¬ Recoverable specUnshallow G GP s (run (progUnshallowEarly.take 1) s) := by
+  refine ⟨graphOf specUnshallow, parentsOf specUnshallow, toFS specUnshallow.known,
+    pre_of_check _ (by decide), fun h => ?_⟩
+  have hv := h.consistent 2 ⟨1, 1, by decide,
+    ReachFrom.par (by decide) (by decide) (ReachFrom.refl 2)⟩
+  rcases hv with hv | ⟨p, k, objs, hp, _, _⟩
+  · exact absurd hv (by decide)
+  · simp [run, step, upd, toFS, lk, specUnshallow, progUnshallowEarly] at hp
+
+end shallow
 
 end Dulwich.Props.C09
